@@ -351,6 +351,7 @@ theorem consume_served (l : List Item) (c : Cli) (n : Nat) : Served1 c n (consum
         · exact Or.inr ⟨h3, Nat.lt_of_lt_of_le h4 h.le⟩
       · exact Or.inr ⟨Nat.le_trans a3 h1, h2⟩
     | handled => simpa [consume] using ih c n
+    | empty => simpa [consume] using ih c n
     | bad => exact ⟨endServe_cred c, by simp [consume, Live], by simp [consume], Nat.le_refl _,
         fun o ho => Or.inl (endServe_table c o (by simpa [consume] using ho))⟩
     | bye => exact ⟨endServe_cred c, by simp [consume, Live], by simp [consume], Nat.le_refl _,
@@ -381,6 +382,7 @@ theorem poolConsume_served (l : List Item) (c : Cli) (n : Nat) : Served1 c n (po
         · exact Or.inr ⟨h3, Nat.lt_of_lt_of_le h4 h.le⟩
       · exact Or.inr ⟨Nat.le_trans a3 h1, h2⟩
     | handled => simpa [poolConsume] using ih c n
+    | empty => simpa [poolConsume] using ih c n
     | bad => simpa [poolConsume] using ih c n
     | bye => exact ⟨endServe_cred c, by simp [poolConsume, Live], by simp [poolConsume], Nat.le_refl _,
         fun o ho => Or.inl (endServe_table c o (by simpa [poolConsume] using ho))⟩
